@@ -223,7 +223,10 @@ pub fn exec(ctx: &mut Ctx, case: &GraphCase, spec: Spec, log_events: bool) -> Gr
     let mlog_s = mlog.to_string_lossy().to_string();
     let olog_s = olog.to_string_lossy().to_string();
     let files = build_files(case, 1, Some(&mlog_s), Some(&olog_s));
-    let mut dirs = vec!["alias".to_string()];
+    let mut dirs = vec![];
+    if case.input_style == 3 {
+        dirs.push("alias".to_string()); // for the `alias/../f` spelling
+    }
     if case.subdirs {
         dirs.push("d".to_string());
     }
